@@ -471,6 +471,9 @@ func (r ruleData) toAuditRuleData() (*auditRuleData, error) {
 }
 
 func (r *ruleData) fromAuditRuleData(in *auditRuleData) error {
+	if in.FieldCount > maxFields {
+		return fmt.Errorf("too many fields (%d), only %d are supported", in.FieldCount, maxFields)
+	}
 	r.flags = in.Flags &^ prependFilter
 	r.prepend = in.Flags&prependFilter != 0
 	r.action = in.Action
